@@ -174,6 +174,15 @@ fn decorate(e: &Envelope, a: &mut Aux) -> Envelope {
         5 => e.add_assertion_salted(known_values::SALT, "not a salt", true).add_assertion(known_values::SIGNED, "not a signature").add_assertion(known_values::HAS_RECIPIENT, 5).add_assertion(known_values::SSKR_SHARE, "x"),
         6 => e.add_assertion(known_values::BODY, "b").add_assertion(known_values::RESULT, "r").add_assertion(known_values::ERROR, "e").add_assertion(known_values::CONTENT, 1).add_assertion_salted(known_values::NOTE, 3, true).add_assertion_salted(known_values::DATE, "d", true),
         7 => e.add_assertion_salted(known_values::ATTACHMENT, Envelope::new("p").wrap_envelope().add_assertion_salted(known_values::VENDOR, "v", true), true),
+        8 if a.rng.chance(1, 3) => {
+            // genuine, sufficient SSKR shares - but of a secret that is not a 32-byte content key
+            let n = *a.rng.pick(&[16usize, 18, 24, 30]);
+            let secret = bc_components::SSKRSecret::new(a.rng.bytes(n)).unwrap();
+            let spec = SSKRSpec::new(1, vec![SSKRGroupSpec::new(1, 1).unwrap()]).unwrap();
+            let shares = bc_components::sskr_generate(&spec, &secret).unwrap();
+            let w = e.wrap_envelope().encrypt_subject(&a.key).unwrap();
+            w.add_assertion(known_values::SSKR_SHARE, shares[0][0].clone())
+        }
         8 if a.rng.chance(1, 2) => {
             // a bare signature leaf that carries assertions of its own (a note, an unwrapped countersignature)
             let so = Envelope::new(sig.clone());
@@ -232,6 +241,19 @@ pub fn run(ctx: &mut Ctx) {
             }
         }
         zoo.push(("decorated-obscured", gen::obscure_random(&zoo[1].1.clone(), &mut rng, 2, &key)));
+        // deep nesting (formatters indent, walkers recurse): 21..300 levels
+        {
+            let depth = *rng.pick(&[21usize, 22, 40, 64, 65, 129, 257, 300]);
+            let mut d = Envelope::new("core");
+            for i in 0..depth {
+                d = match i % 3 {
+                    0 => d.wrap_envelope(),
+                    1 => Envelope::new("level").add_assertion("inner", d),
+                    _ => d.add_assertion("n", i as u64),
+                };
+            }
+            zoo.push(("deep-nesting", d));
+        }
         zoo.push(("elided-whole", base.elide()));
         zoo.push(("encrypted-whole", base.wrap_envelope().encrypt_subject(&key).unwrap()));
         if let Ok(c) = base.compress() {
